@@ -32,10 +32,12 @@ theorem step_sig (cfg : Cfg) (s s' : St) (l : Label) (h : step cfg s l = some s'
       by_cases hg : g = g0
       · subst hg
         refine .inr ⟨.chan (.send x), ?_, .inl ⟨x, rfl, rfl, hr⟩⟩
-        have : ({ s.set g p with emitted := s.emitted ++ [x] } : St).get g = p := by cases g <;> rfl
+        have : ∀ c, ({ s.set g p with emitted := s.emitted ++ [x], closedDrop := c } : St).get g = p := by
+          intro c; cases g <;> rfl
         rw [this]; exact hp
       · left
-        have : ({ s.set g0 p with emitted := s.emitted ++ [x] } : St).get g = (s.set g0 p).get g := by cases g <;> rfl
+        have : ∀ c, ({ s.set g0 p with emitted := s.emitted ++ [x], closedDrop := c } : St).get g = (s.set g0 p).get g := by
+          intro c; cases g <;> rfl
         rw [this]; exact get_set_other s g0 g p hg
   | sig g0 pl =>
     simp only [step] at h
@@ -82,4 +84,106 @@ theorem reachable_sig (cfg : Cfg) (net0 : Signal → Net) (s : St) (h : Reachabl
           · rw [hbl, hx] at hns; simp [isSend] at hns
           · rw [ho] at hx; cases hx
 
+/-! ### where every emitted event went -/
+
+/-- Where every emitted event went. -/
+structure Acct (cfg : Cfg) (s : St) : Prop where
+  disc : ∀ x ∈ s.discarded, route cfg.logs cfg.traces cfg.metrics (cfg.shape x) = .discard
+  all : ∀ x ∈ s.emitted,
+    (route cfg.logs cfg.traces cfg.metrics (cfg.shape x) = .discard ∧ x ∈ s.discarded) ∨
+    ∃ g, route cfg.logs cfg.traces cfg.metrics (cfg.shape x) = .signal g ∧
+      (x ∈ (s.get g).ch.accepted ∨ x ∈ s.closedDrop)
+  count : s.discarded.length = (s.emitted.filter fun x =>
+      decide (route cfg.logs cfg.traces cfg.metrics (cfg.shape x) = .discard)).length
+
+theorem acct_reachable (cfg : Cfg) (net0 : Signal → Net) (s : St) (h : Reachable cfg net0 s) : Acct cfg s := by
+  refine Sched.invariant_of_step (Inv := Acct cfg) ⟨by simp [init], by simp [init], by simp [init]⟩ ?_ s h
+  intro s l s' ⟨hd, ha, hc⟩ hs
+  cases l with
+  | emit x =>
+    simp only [step] at hs
+    cases hr : route cfg.logs cfg.traces cfg.metrics (cfg.shape x) with
+    | discard =>
+      simp only [hr, Option.some.injEq] at hs
+      subst hs
+      refine ⟨?_, ?_, ?_⟩
+      · intro y hy
+        simp only [List.mem_append, List.mem_singleton] at hy
+        rcases hy with hy | rfl
+        · exact hd y hy
+        · exact hr
+      · intro y hy
+        simp only [List.mem_append, List.mem_singleton] at hy
+        rcases hy with hy | rfl
+        · rcases ha y hy with ⟨h1, h2⟩ | ⟨g, h1, h2⟩
+          · exact .inl ⟨h1, List.mem_append_left _ h2⟩
+          · exact .inr ⟨g, h1, by cases g <;> exact h2⟩
+        · exact .inl ⟨hr, by simp⟩
+      · simp [List.filter_append, hc, hr]
+    | signal g0 =>
+      simp only [hr, Option.map_eq_some_iff] at hs
+      obtain ⟨p, hp, rfl⟩ := hs
+      -- the channel of `g0` took one `send x`
+      have hch : p.ch = Batcher.send (cfg.pipe g0).ch (s.get g0).ch x := by
+        simp only [OtlpPipe.step, Batcher.step, Option.map_eq_some_iff] at hp
+        obtain ⟨ch', hc', rfl⟩ := hp
+        split at hc'
+        · cases hc'; rfl
+        · cases hc'
+      have hacc := Batcher.send_accepted (cfg.pipe g0).ch (s.get g0).ch x
+      rw [← hch] at hacc
+      have hget : ∀ c g, ({ s.set g0 p with emitted := s.emitted ++ [x], closedDrop := c } : St).get g = (s.set g0 p).get g := by
+        intro c g; cases g <;> rfl
+      refine ⟨fun y hy => hd y (by cases g0 <;> exact hy), ?_, ?_⟩
+      · intro y hy
+        simp only [List.mem_append, List.mem_singleton] at hy
+        rcases hy with hy | rfl
+        · rcases ha y hy with ⟨h1, h2⟩ | ⟨g, h1, h2⟩
+          · exact .inl ⟨h1, by cases g0 <;> exact h2⟩
+          · refine .inr ⟨g, h1, ?_⟩
+            rw [hget]
+            rcases h2 with h2 | h2
+            · left
+              by_cases hg : g = g0
+              · subst hg
+                rw [get_set_same]
+                rcases hacc with e | e <;> rw [e] <;> simp [h2]
+              · rw [get_set_other s g0 g p hg]; exact h2
+            · right
+              simp only
+              split <;> simp [h2]
+        · refine .inr ⟨g0, hr, ?_⟩
+          rw [hget, get_set_same]
+          rcases hacc with e | e
+          · right
+            simp only [e, if_true]
+            simp
+          · left; rw [e]; simp
+      · have : ((s.emitted ++ [x]).filter fun y => decide (route cfg.logs cfg.traces cfg.metrics (cfg.shape y) = .discard)).length
+            = (s.emitted.filter fun y => decide (route cfg.logs cfg.traces cfg.metrics (cfg.shape y) = .discard)).length := by
+          simp [List.filter_append, hr]
+        rw [this]
+        have : (s.set g0 p).discarded = s.discarded := by cases g0 <;> rfl
+        simp only [this]; exact hc
+  | sig g0 pl =>
+    simp only [step] at hs
+    cases hsnd : isSend pl with
+    | true => simp [hsnd] at hs
+    | false =>
+      simp only [hsnd, Bool.false_eq_true, if_false, Option.map_eq_some_iff] at hs
+      obtain ⟨p, hp, rfl⟩ := hs
+      obtain ⟨bl, hb, _⟩ := OtlpPipe.step_chan (cfg.pipe g0) (s.get g0) p pl hp
+      have hmono := (Batcher.accepted_step (cfg.pipe g0).ch (s.get g0).ch p.ch bl hb).1
+      refine ⟨fun y hy => hd y (by cases g0 <;> exact hy), ?_, by cases g0 <;> exact hc⟩
+      intro y hy
+      have hy' : y ∈ s.emitted := by cases g0 <;> exact hy
+      rcases ha y hy' with ⟨h1, h2⟩ | ⟨g, h1, h2⟩
+      · exact .inl ⟨h1, by cases g0 <;> exact h2⟩
+      · refine .inr ⟨g, h1, ?_⟩
+        rcases h2 with h2 | h2
+        · left
+          by_cases hg : g = g0
+          · subst hg; rw [get_set_same]; exact hmono y h2
+          · rw [get_set_other s g0 g p hg]; exact h2
+        · right; cases g0 <;> exact h2
 end EmitModel.OtlpAll
